@@ -419,22 +419,33 @@ def run_unit(name, spec, tier):
             "desc": "%s: `%s`%s" % (d["message"], stmt, (" -- clause `%s`" % clause) if clause else ""),
             "loc": loc, "output": d.get("rendered", ""), "cex": None})
     # canaries: every one must FAIL
-    if not r2["timeout"] and r2["json"] is not None:
-        cverr, cother = classify(r2["diags"])
+    def canary_failed_ids(rr):
+        cverr, _ = classify(rr["diags"])
         ctext = open(cgen).read().split("\n")
-        failed_ids = set()
+        ids = set()
         for d in cverr:
             sp = primary_span(d, cgen)
             if sp:
                 for k in range(max(0, sp["line_start"] - 2), min(len(ctext), sp["line_end"] + 1)):
                     m = re.search(r"VX-CANARY (\d+)", ctext[k])
                     if m:
-                        failed_ids.add(int(m.group(1)))
-        res["canaries"] = {"total": len(canary_ids), "failed_as_expected": len(failed_ids)}
-        if not res["failures"]:
+                        ids.add(int(m.group(1)))
+        return ids
+
+    if not res["failures"]:
+        failed_ids = set()
+        if not r2["timeout"] and r2["json"] is not None:
+            failed_ids = canary_failed_ids(r2)
+        missing = [c for c in canary_ids if c["id"] not in failed_ids]
+        if missing:
+            # one retry with a larger resource limit before giving up (solver nondeterminism)
+            r3 = run_verus(cgen, spec.get("timeout", 1800), (spec.get("rlimit") or 10) * 4, 8)
+            res["cmds"].append(r3["cmd"])
+            if not r3["timeout"] and r3["json"] is not None:
+                failed_ids |= canary_failed_ids(r3)
             missing = [c for c in canary_ids if c["id"] not in failed_ids]
-            if missing:
-                res["undecided"].append("vacuity guard: canary assert(false) verified at %s" % missing[:5])
-    elif not res["failures"]:
-        res["undecided"].append("canary run did not complete")
+        res["canaries"] = {"total": len(canary_ids), "failed_as_expected": len(failed_ids)}
+        if missing:
+            res["undecided"].append("vacuity guard: canary assert(false) verified at %s" % missing[:5])
+    res["wall_s"] = time.time() - t0
     return res
